@@ -123,7 +123,8 @@ def compile_driver(ctx, b, src, extra=(), link_extra=(), name=None, wrap=False):
     cflags = b["cflags"].replace("-std=c99", "-std=gnu99").replace("-pedantic", "")
     cmd = [b["cc"]] + cflags.split() + ["-Wno-unused-function", "-I", os.path.join(b["dir"], "include"),
            "-I", os.path.join(VERIF, "harness")] + b["inc"] + list(extra) + \
-          ["-o", out, os.path.join(VERIF, "harness", src), b["lib"]] + list(link_extra) + b["libs"] + \
+          ["-o", out, os.path.join(VERIF, "harness", src), b["lib"]] + list(link_extra) + \
+          ([os.path.join(VERIF, "harness", "adapters", "adapter.c")] if b["backend"] != "idn2" else []) + b["libs"] + \
           (b["ldflags"].split() if b["ldflags"] else []) + ["-lpthread"]
     r = subprocess.run(cmd, stdout=subprocess.PIPE, stderr=subprocess.STDOUT, text=True)
     if r.returncode != 0:
